@@ -31,8 +31,27 @@ def directTrace (h : Handler) (c : List Nat) (axisName : Nat → String) (iS iD 
     let n := prodL (exchangeShape LS LD c axis p)
     [{ comm := axisName a0, op := "Alltoall", send := n, recv := n }]
 
+/-- the early exit of `LayoutHandler.transpose` (:515-518).  `fixed = true` is the code after the repair of defect F15: a
+    handler set up with an empty coordinate grid (the plot-only process) holds no data on ANY rank — a rank-independent
+    test; `fixed = false` is the earlier test `self._buffer_size == 0` on the rank's own buffer size, which can differ
+    between members of one sub-communicator when two process axes are over-decomposed. -/
+def earlyExit (fixed : Bool) (h : Handler) (c : List Nat) : Bool :=
+  if fixed then h.ext.any (· == 0) else h.bufferSize c == 0
+
 /-- `LayoutHandler.transpose` -/
+def handlerTraceF (fixed : Bool) (h : Handler) (rm : RouteMap) (c : List Nat) (axisName : Nat → String) (iS iD : Nat) :
+    List Call :=
+  if earlyExit fixed h c then [] else
+  if iS = iD then [] else
+  let steps := rm.r iS iD
+  (steps.foldl (fun (st : List Call × Nat) next => (st.1 ++ directTrace h c axisName st.2 next, next)) ([], iS)).1
+
+/-- `LayoutHandler.transpose` of the current (repaired) code -/
 def handlerTrace (h : Handler) (rm : RouteMap) (c : List Nat) (axisName : Nat → String) (iS iD : Nat) : List Call :=
+  handlerTraceF true h rm c axisName iS iD
+
+/-- `LayoutHandler.transpose` before the repair of F15 -/
+def handlerTraceOld (h : Handler) (rm : RouteMap) (c : List Nat) (axisName : Nat → String) (iS iD : Nat) : List Call :=
   if h.bufferSize c = 0 then [] else
   if iS = iD then [] else
   let steps := rm.r iS iD
@@ -53,7 +72,9 @@ def crossTrace (S : Swapper) (rank : Nat) (kS kD : Nat) : List Call :=
 
 /-- `LayoutSwapper.transpose` on world rank `rank` -/
 def swapperTrace (S : Swapper) (rm : RouteMap) (hrm : Nat → RouteMap) (rank : Nat) (kS kD : Nat) : List Call :=
-  if S.bufferSize rank = 0 then [] else
+  -- :1259 since the repair of F16: `not any(m.hasData for m in self._managers)`, the same on every rank (before: the rank's own
+  -- `_buffer_size == 0`, see `C06.swapper_early_exit_inconsistent`)
+  if S.ext.any (· == 0) then [] else
   let (hS, jS) := S.locate kS; let (hD, jD) := S.locate kD
   let name := fun (h : Nat) (a : Nat) => s!"sub{((S.commAxes h).getD []).getD a 0}"
   let one := fun (a b : Nat) =>
